@@ -7,7 +7,8 @@ from props import _txw
 SPEC = {
     "uses_gen": True,          # the output-coin sum uses the translated mathutil.AddUint64
     "cmd": "c09",
-    "budget": (600, 12000),
+    "budget": (600, 8000),
+    "search_seeds": 1,
     "header": "From Sky Require Import Base.Uint Model.ArithSpec Model.TxVerify.\nOpen Scope Z_scope.",
     "gen_header": "",
     "corr": "C09_corr.v",
